@@ -210,6 +210,13 @@ _NODE_FACTS = ("all(has_attr(" + _MG + ", k, 'graph') and fresh_graph(" + _GK + 
                "for k in nodes(" + _MG + ") if {cond})")
 
 
+_COMPLETE = "(has_attr(self.molecule, n, 'fragid') and has_attr(self.molecule, n, 'mapping'))"
+_DISTINCT = ("all(implies(attr(" + _MG + ", a, 'graph') == attr(" + _MG + ", b, 'graph'), a == b) "
+             "for a in nodes(" + _MG + ") if {conda} for b in nodes(" + _MG + ") if {condb})")
+_HASFRAG_A = _HASFRAG.replace(', k,', ', a,')
+_HASFRAG_B = _HASFRAG.replace(', k,', ', b,')
+
+
 def _ex_rdm():
     import logging
     logging.getLogger('pysmiles').setLevel(logging.ERROR)
@@ -247,6 +254,10 @@ contract(
         _NODE_FACTS.format(cond=_HASFRAG),
         # a node without a fragment (virtual node) is left alone
         "all(implies(not " + _HASFRAG + ", attr_unchanged(" + _MG + ", k, 'graph')) for k in nodes(" + _MG + "))",
+        # different coarse nodes get different fragment-graph objects
+        _DISTINCT.format(conda=_HASFRAG_A, condb=_HASFRAG_B),
+        # every atom of the fine graph records its coarse node and the template atom it was copied from
+        "all(" + _COMPLETE + " for n in nodes(self.molecule))",
     ],
     # a fragment-less node that takes part in a bond of order >= 1 is rejected
     raises={'SyntaxError': {'iff': True, 'when':
@@ -260,6 +271,8 @@ contract(
             # no fragment-less node seen so far takes part in a bond of order >= 1 (otherwise SyntaxError was raised)
             "all(implies(not " + _HASFRAG + " and node_index(" + _MG + ", k) < _i0, "
             "all(implies(has_edge(" + _MG + ", k, m), eattr(" + _MG + ", k, m, 'order') == 0) for m in nodes(" + _MG + "))) for k in nodes(" + _MG + "))",
+            _DISTINCT.format(conda=_HASFRAG_A + " and node_index(" + _MG + ", a) < _i0", condb=_HASFRAG_B + " and node_index(" + _MG + ", b) < _i0"),
+            "all(" + _COMPLETE + " for n in nodes(self.molecule))",
         ], lemmas=[
             "implies(not (has_attr(" + _MG + ", meta_node, 'fragname') and attr(" + _MG + ", meta_node, 'fragname') in fragment_dict), "
             "all(implies(has_edge(" + _MG + ", meta_node, m), eattr(" + _MG + ", meta_node, m, 'order') == 0) for m in nodes(" + _MG + ")))",
@@ -275,6 +288,10 @@ contract(
             "all(has_attr(self.molecule, n, 'fragid') and len(attr(self.molecule, n, 'fragid')) == 1 and attr(self.molecule, n, 'fragid')[0] == meta_node and "
             "has_attr(graph_frag, n, 'fragid') and len(attr(graph_frag, n, 'fragid')) == 1 and attr(graph_frag, n, 'fragid')[0] == meta_node "
             "for n in nodes(graph_frag))",
+            _DISTINCT.format(conda=_HASFRAG_A + " and node_index(" + _MG + ", a) < _i0", condb=_HASFRAG_B + " and node_index(" + _MG + ", b) < _i0"),
+            # atoms before the one being processed are complete (keys of the copies are consecutive, in template order)
+            "forall_int(lambda n: implies(has_node(self.molecule, n) and (n_nodes(fragment) == 0 or n < correspondence[nodes(fragment)[0]] + _i1), "
+            + _COMPLETE + "))",
         ]),
         2: Loop(over='fragment.edges', modifies=["graph_frag:edges,eattrs"], invariant=[],
                 pre_lemmas=["has_edge(fragment, a, b) and has_node(fragment, a) and has_node(fragment, b)"]),
@@ -367,4 +384,75 @@ contract(
     },
     heap_invariants=['fragid'], wf_all_graphs=True,
     examples=_ex_squash,
+)
+
+
+# ------------------------------------------------------------------------------------------------
+# MoleculeResolver.resolve — one resolution step (C06): the previous fine graph becomes the coarse graph, its atom names become
+# fragment names, and the five steps are called in an order in which each one's precondition is established by the ones before it.
+contract(
+    target='cgsmiles.graph_utils:annotate_fragments', trusted=True,
+    types={'meta_graph': 'Graph:mol', 'molecule': 'Graph:mol'}, returns='Graph:mol',
+    ensures=["result == meta_graph"], modifies=["meta_graph:attr:graph"], allocates=True,
+    notes='assumed: returns the coarse graph it was given, rewriting only the per-node fragment graphs; checked by the bounded tier (C02, C12)',
+    assumes=["graph_utils.annotate_fragments returns its first argument and writes only the 'graph' attribute of its nodes"],
+)
+contract(
+    target='cgsmiles.pysmiles_utils:annotate_ez_isomers_cgsmiles', trusted=True,
+    types={'molecule': 'Graph:mol'}, returns=None, modifies=["molecule:attr:ez_isomer_class,attr:ez_isomer"],
+    notes='assumed: pysmiles _annotate_ez_isomers; checked by the bounded tier (C15)',
+    assumes=['pysmiles_utils.annotate_ez_isomers_cgsmiles writes only ez_isomer / ez_isomer_class node attributes'],
+)
+
+
+def _ex_resolve():
+    import logging
+    logging.getLogger('pysmiles').setLevel(logging.ERROR)
+    from cgsmiles.resolve import MoleculeResolver
+    strings = [("{[#A][#B]}.{#A=CC[$],#B=[$]O}", True), ("{[#X][#Y]}.{#X=[#A][#B][$],#Y=[$][#B]}.{#A=CC[$],#B=[$]O[$]}", True),
+               ("{[#X]|3}.{#X=[$][#A][#B][$]}.{#A=[>]CC[<],#B=[>]COC[<]}", True), ("{[#A][#B]}.{#A=[#a][#b][$],#B=[$][#c]}", False),
+               ("{[#X][#Y]}.{#X=[#A][#B][$],#Y=[$][#B]}.{#A=[#a][$],#B=[$][#b][$]}", False), ("{[#V].[#A][#B]}.{#A=CC[$],#B=[$]O}", True),
+               ("{[#A]1[#B][#C]1}.{#A=[$]C[$],#B=[$]N[$],#C=[$]O[$]}", True)]
+    for s, aa in strings:
+        n = s.count('}.{')
+        for upto in range(n):
+            res = MoleculeResolver.from_string(s, last_all_atom=aa)
+            for _ in range(upto):
+                res.resolve()
+            yield {'self': res}
+
+
+contract(
+    target='cgsmiles.resolve:MoleculeResolver.resolve', serves=['C06', 'C02', 'C11'],
+    self_fields={'meta_graph': 'Graph:mol', 'molecule': 'Graph:mol', 'legacy': 'Bool', 'last_all_atom': 'Bool',
+                 'resolution_counter': 'Int', 'resolutions': 'Int', 'fragment_dicts': 'List[Dict[Str,Graph:tmpl]]'},
+    types={}, returns='Tuple[Graph:mol,Graph:mol]',
+    requires=[
+        "0 <= self.resolution_counter and self.resolution_counter < len(self.fragment_dicts) and self.resolutions == len(self.fragment_dicts)",
+        "all(has_attr(self.molecule, n, 'fragname') for n in nodes(self.molecule))",
+        "all(has_eattr(self.molecule, e[0], e[1], 'order') and eattr(self.molecule, e[0], e[1], 'order') >= 0 and "
+        "eattr(self.molecule, e[0], e[1], 'order') == int(eattr(self.molecule, e[0], e[1], 'order')) and e[0] != e[1] for e in edge_list(self.molecule))",
+        "all(self.fragment_dicts[self.resolution_counter][f] != self.molecule for f in keys(self.fragment_dicts[self.resolution_counter]))",
+        # the graph to be refined is a plain molecule graph: its nodes do not carry fragment graphs yet
+        "all(not has_attr(self.molecule, n, 'graph') for n in nodes(self.molecule))",
+        # an intermediate (coarse-grained) level; the final all-atom level additionally runs pysmiles' hydrogen completion
+        "not (self.resolution_counter == self.resolutions - 1 and self.last_all_atom)",
+    ],
+    ensures=[
+        # the level counter advances by one
+        "self.resolution_counter == old(self.resolution_counter) + 1",
+        # the coarse graph of this step is the fine graph of the previous step (same object, same nodes, same bonds) ...
+        "same_graph(result[0], old(self.molecule)) and self.meta_graph == result[0] and self.molecule == result[1] and result[1] != result[0]",
+        "forall_int(lambda n: has_node(result[0], n) == old(has_node(self.molecule, n)))",
+        "forall_int(lambda u, v: has_edge(result[0], u, v) == old(has_edge(self.molecule, u, v)))",
+        # ... whose atom names have become the fragment names that select the next fragments
+        "all(has_attr(result[0], n, 'fragname') and attr(result[0], n, 'fragname') == "
+        "(old(attr(self.molecule, n, 'atomname')) if old(has_attr(self.molecule, n, 'atomname')) else old(attr(self.molecule, n, 'fragname'))) "
+        "for n in nodes(result[0]))",
+    ],
+    raises={'SyntaxError': {'when': None}},
+    rebinds=['self.molecule', 'self.meta_graph'], modifies=["self.molecule:attr:fragname,attr:graph"], allocates=True,
+    heap_invariants=['descriptors', 'fragid'], wf_all_graphs=True,
+    abstract=['spec_compatible', 'kind_ok'], opaque=['ends_in_digit', 'is_descriptor'],
+    examples=_ex_resolve,
 )
